@@ -4,7 +4,6 @@ import (
 	"encoding/json"
 	"os"
 	"sync"
-	"sync/atomic"
 	"testing"
 
 	"github.com/hashicorp/hcl-lang/decoder"
@@ -22,7 +21,7 @@ type C05Case struct {
 }
 
 func genC05(g gen.G) C05Case {
-	w := genHistoryWorld(g)
+	w := genHistoryWorld(g, 85)
 	n := g.Int(40, 160)
 	base := GenCalls(g, w, g.Int(6, 20))
 	// many goroutines issue the same few queries, so that they meet on the same
@@ -92,12 +91,15 @@ func checkC05(c C05Case) Result {
 	}
 	// concurrent execution
 	got := make([]string, len(c.Calls))
-	var next int64 = -1
+	// The calls are dealt out statically (call i goes to goroutine i mod G) and the
+	// goroutines never synchronise with each other between start and join: a shared
+	// work counter would order every query after the ones fetched before it and hide
+	// from the race detector all conflicting accesses that did not overlap in time.
 	var wg sync.WaitGroup
 	shared := w.Decoder()
 	for gi := 0; gi < c.Goroutines; gi++ {
 		wg.Add(1)
-		go func() {
+		go func(gi int) {
 			defer wg.Done()
 			var d *decoder.Decoder
 			if c.ShareDec {
@@ -105,14 +107,10 @@ func checkC05(c C05Case) Result {
 			} else {
 				d = w.Decoder()
 			}
-			for {
-				i := int(atomic.AddInt64(&next, 1))
-				if i >= len(c.Calls) {
-					return
-				}
+			for i := gi; i < len(c.Calls); i += c.Goroutines {
 				got[i], _ = NormResult(Exec(w, d, c.Calls[i]))
 			}
-		}()
+		}(gi)
 	}
 	wg.Wait()
 	for i := range want {
